@@ -17,7 +17,7 @@ class PreludeMixin:
                 'float', 'bool', 'isinstance', 'all', 'any', 'zip', 'enumerate', 'reversed', 'sum', 'abs',
                 'getattr', 'pow', 'iter', 'next', 'type', 'repr', 'print', 'frozenset', 'hasattr'}
     SPEC_BUILTINS = {'vec_le', 'vec_ge', 'vec_lt', 'vec_eq', 'vec_zero', 'dom', 'is_none', 'to_real', 'length',
-                     'keys_subset', 'str_to_int', 'alive', 'in_prefix', 'name_of', 'str_of', 'dict_put', 'dict_del', 'set_put', 'set_del', 'counter_inc', 'is_digits', 'select', 'strlen', 'cls_is', 'distinct_list'}
+                     'keys_subset', 'str_to_int', 'alive', 'in_prefix', 'name_of', 'str_of', 'clock_now', 'dict_put', 'dict_del', 'set_put', 'set_del', 'counter_inc', 'is_digits', 'select', 'strlen', 'cls_is', 'distinct_list'}
     LIB_CONSTS = {'sys.maxsize': 9223372036854775807, 'np.inf': INF, 'numpy.inf': INF, 'math.inf': INF}
     LIB_MODULES_ALIAS = {}
     LIB_MODULES = {'six.moves', 'os.path', 'six.moves.urllib', 'np.random'}
@@ -906,15 +906,13 @@ class PreludeMixin:
     b_six_viewkeys = b_six_iterkeys
 
     def b_time_time(self, st, fr, args, kw):
-        """time.time(): fresh real, non-decreasing along one execution."""
+        """time.time(): a fresh real, non-decreasing along one execution.  The last value read is the
+        ghost heap cell $clock (so contracts can speak about it: clock_now(), old(clock_now()))."""
+        key = ('$clock', 0)
+        arr = self.H.get(st.heap, key, R)
         t = z3.Real(fresh_name('now'))
-        last = st.marks.get('clock')
-        if last is not None:
-            st.assume(t >= last)
-        st.assume(t >= 0)
-        st.marks['clock'] = t
-        st.marks.setdefault('clock_reads', [])
-        st.marks['clock_reads'] = st.marks['clock_reads'] + [t]
+        st.assume(t >= z3.Select(arr, 0), t >= 0)
+        st.heap[key] = z3.Store(arr, 0, t)
         return SR(t)
 
     def b_collections_Counter(self, st, fr, args, kw):
@@ -1014,6 +1012,8 @@ class PreludeMixin:
             return ops.set_discard(args[0], args[1])
         if name == 'counter_inc':
             return ops.counter_add(args[0], args[1], lift(args[2], KInt).z)
+        if name == 'clock_now':
+            return SR(z3.Select(self.H.get(st.heap, ('$clock', 0), R), 0))
         if name == 'in_prefix':
             lst, n, item = args
             return SB(self.list_member(lst, lift(n, KInt).z, self.coerce_to(st, item, lst.kind.elem)))
